@@ -22,6 +22,9 @@ type Case struct {
 	Kind     string   `json:"kind"`
 	Tape     []uint32 `json:"tape"`
 	Sched    []uint32 `json:"sched"`
+	// StartHash: digest of the starting mesh when it came out of a library
+	// routine whose result depends on Go map order (see startMesh3).
+	StartHash string `json:"start_hash,omitempty"`
 }
 
 type Finding struct{ Sig, Msg string }
@@ -32,6 +35,12 @@ type Stats struct {
 	TraceHashes []string
 	NonTrivial  bool
 	Desc        string
+	// MapDep names the library routine whose Go-map iteration legitimately
+	// influences this case's execution order or bytes ("" = none): such a case is
+	// compared only on its order-free parts by the determinism self-test.
+	MapDep string
+	// WantStart (in, replay) / StartHash (out): see Case.StartHash.
+	WantStart, StartHash string
 	Probes      map[string]int
 }
 
@@ -56,7 +65,8 @@ func prefixed(p string, s []string) []string {
 }
 
 func RunCase(t *testing.T, c *Case, src, sched *choice.Source, st *Stats) (fs []Finding) {
-	defer func() { c.Tape, c.Sched = src.Tape(), sched.Tape() }()
+	st.WantStart = c.StartHash
+	defer func() { c.Tape, c.Sched, c.StartHash = src.Tape(), sched.Tape(), st.StartHash }()
 	switch {
 	case c.Kind == "mesh3":
 		return runMesh3(t, src, sched, st)
